@@ -190,7 +190,7 @@ func runCluster(t *testing.T, tr *drv.Tracer, sid, n, slot, seed int) bool {
 	}
 	got := map[int]delivery{}
 	sn := map[int]*pbv1.SniffedConsensusInstance{}
-	timeout := time.After(60 * time.Second)
+	timeout := time.After(180 * time.Second)
 	for len(got) < n || len(sn) < n {
 		select {
 		case d := <-results:
@@ -208,8 +208,8 @@ func runCluster(t *testing.T, tr *drv.Tracer, sid, n, slot, seed int) bool {
 				return fail("propose: " + err.Error())
 			}
 		case <-timeout:
-			tr.Emit(drv.Step{"ev": "Hang", "sid": sid, "delivered": len(got), "sniffed": len(sn)})
-			return true
+			// termination is not this property's business (C04): an undecided cluster is an infrastructure failure here
+			return fail(fmt.Sprintf("cluster did not decide within 180s (delivered %d, sniffed %d)", len(got), len(sn)))
 		}
 	}
 	quorum := (2*n + 2) / 3
